@@ -128,7 +128,9 @@ impl<T: Clone + Copy + Number + PartialOrd + Signed> Banded<T> {
             }
             for i in k + 1..l {
                 //dum = au[ i ][ 0 ] / au[ k ][ 0 ];
-                dum = au[(i, 0)] / au[(k, 0)];
+                // A zero pivot means the whole column is zero (singular matrix):
+                // there is nothing to eliminate, and 0/0 would poison det().
+                dum = if au[(k, 0)] == T::zero() { T::zero() } else { au[(i, 0)] / au[(k, 0)] };
                 //al[ k ][ i - k - 1 ] = dum;
                 al[(k, i - k - 1)] = dum;
                 for j in 1..mm {
